@@ -330,9 +330,17 @@ int main(int argc, char **argv) {
       size_t sz = (size_t)v.size();
       Ref before = r;
       typedef typename Vec::size_type ST;
+      // a count that is enormous AND representable in the size type (no capacity error would be raised): not materialised
+      // (same rule in the model driver)
+      auto hugeOk = [&](ST k) {
+        return (unsigned long long)k > 1000000ULL &&
+               (unsigned long long)sz + (unsigned long long)k <= (unsigned long long)std::numeric_limits<ST>::max();
+      };
       try {
         // arguments are built before the fault schedule is armed
-        if (op == "push") {
+        if ((op == "insn" && hugeOk((ST)N(3))) || ((op == "apn" || op == "apv") && hugeOk((ST)N(2)))) {
+          skip = true;
+        } else if (op == "push") {
           Elem e((int)N(2));
           G().fuel = armed;
           v.push_back(e);
